@@ -176,8 +176,6 @@ def c17_programs(ctx, spec):
                 f.write(codec_record("c%d" % i, tabs["E%d" % i]))
             f.write("Eval vm_compute in [%s].\n" % "; ".join(
                 "derives_to wf d%d c%d && codec_okb c%d" % (i, i, i) for i in range(len(decls))))
-            for i in range(len(decls)):
-                f.write("Lemma ok_%d : codec_okb c%d = true. Proof. vm_compute. reflexivity. Qed.\n" % (i, i))
         p = coqc(path)
         m = re.search(r"=\s*\[(.*?)\]\s*:\s*list bool", p.stdout, re.S)
         if not m:
